@@ -711,6 +711,11 @@ func (vc *VC) convert(fr *Frame, st *State, x *ssa.Convert) {
 		vc.assume(st, mk(q, sortBool))
 		p := &Place{Kind: BArr, Comp: comp, Ref: ref, Root: types.Typ[types.Uint8]}
 		vc.setRoot(st, p, na)
+		if len(vc.P.Ghosts) > 0 {
+			// content abstraction used by ghost key-value stores
+			vc.needBytes, vc.needStr = true, true
+			vc.assume(st, tEq(vc.bytesOf(na, vc.idxLit(0), ln), mk("(str-bytes "+v.T.S+")", &Sort{K: SOpaque, Name: "Bytes"})))
+		}
 		vc.setVal(fr, x, Val{T: vc.named(fr, x, vc.mkSlice(ref, vc.idxLit(0), ln, ln))})
 	case isFloat(to) && fok && vc.mode == ModeMath:
 		// float64(int): exact below 2^53, otherwise rounded; modelled as an envelope
